@@ -56,6 +56,9 @@ def _orphan_ref(ex, sw, st, n=1):
 ENTRY = {
     "put.finish": lambda ex, sw, st: (find_fn(ex, "::commit", "transaction::"), [mk_tx(ex, sw, st)]),
     "put.new": lambda ex, sw, st: (find_fn(ex, "::new", "transaction::"), [sw.cas_ref, VSym(sw.sym_key(st, "op_key"), "K")]),
+    "tx.write": lambda ex, sw, st: (find_fn(ex, "::write", "transaction::"),
+                                    [VRef(st.alloc(mk_tx(ex, sw, st))), VRef(st.alloc(VOpaque("bytes", ("chunk",))))]),
+    "tx.drop": lambda ex, sw, st: ("drop", [mk_tx(ex, sw, st)]),
     "get": lambda ex, sw, st: (find_fn(ex, "::get", "cas::"), [sw.cas_ref, keyref(sw, st)]),
     "get_size": lambda ex, sw, st: (find_fn(ex, "::get_size", "cas::"), [sw.cas_ref, keyref(sw, st)]),
     "get_reader": lambda ex, sw, st: (find_fn(ex, "::get_reader", "cas::"), [sw.cas_ref, keyref(sw, st)]),
@@ -76,9 +79,20 @@ ENTRY = {
 def explore(ex, name, U=2, HU=2, faults=0, spill=False, **world):
     st = State()
     st.faults_left = faults
+    spill = world.pop("spill", spill)
     sw = SystemWorld(ex, st, U=U, HU=HU, **world)
     sw.io.spill = spill
     fn, args = ENTRY[name](ex, sw, st)
+    if fn == "drop":
+        # dropping a value: run the drop glue (Drop impls, field drops) on it
+        finals = []
+        for s2 in ex.drop_value(st, args[0], VRef(st.alloc(args[0]))):
+            if s2.frames:
+                finals += ex.run(s2)
+            else:
+                s2.status = "returned"
+                finals.append(s2)
+        return sw, finals
     ex.start(st, fn, args)
     finals = ex.run(st)
     return sw, finals
